@@ -222,3 +222,123 @@ pub fn bkdc(args: &[&str]) -> String {
     out.push("END".to_string());
     out.join(" | ")
 }
+
+
+// ---------------------------------------------------------------------------------------------
+// BKDN: the same loop over the REAL netlink transport (`ipc::netlink`, NETLINK_USERSOCK): its own receive (recvmsg, the 16-byte
+// netlink header) is in the path. A second raw netlink socket of this process unicasts the datagrams; the `nlmsg_len` field of
+// every other datagram CLAIMS more payload than is sent (the kernel does not check it on user-to-user unicast): what is framed
+// must be a function of the bytes that arrived (round 6: the receive took the length from the header).
+
+struct NetW {
+    inner: portus::ipc::netlink::Socket<portus::ipc::Blocking>,
+    left: AtomicUsize,
+    flag: Arc<AtomicBool>,
+}
+
+impl Ipc for NetW {
+    type Addr = u32;
+    fn name() -> String {
+        "netw".into()
+    }
+    fn send(&self, _msg: &[u8], _to: &u32) -> portus::Result<()> {
+        Ok(())
+    }
+    fn recv(&self, msg: &mut [u8]) -> portus::Result<(usize, u32)> {
+        if self.left.load(Ordering::SeqCst) == 0 {
+            self.flag.store(false, Ordering::SeqCst);
+            return Err(portus::Error("stop".into()));
+        }
+        self.left.fetch_sub(1, Ordering::SeqCst);
+        self.inner.recv(msg).map(|(n, ())| (n, 0))
+    }
+    fn close(&mut self) -> portus::Result<()> {
+        // (the netlink socket is bound to the process id: it has to be closed before the next case can bind one)
+        self.inner.close()
+    }
+}
+
+fn nl_send(fd: libc::c_int, claimed_len: u32, payload: &[u8]) -> bool {
+    let mut dgram = Vec::with_capacity(16 + payload.len());
+    dgram.extend_from_slice(&claimed_len.to_le_bytes());
+    dgram.extend_from_slice(&[0u8; 12]);
+    dgram.extend_from_slice(payload);
+    unsafe {
+        let mut sa: libc::sockaddr_nl = std::mem::zeroed();
+        sa.nl_family = libc::AF_NETLINK as u16;
+        sa.nl_pid = libc::getpid() as u32; // the portus netlink socket binds to the process id
+        let r = libc::sendto(fd, dgram.as_ptr() as *const libc::c_void, dgram.len(), 0,
+                             &sa as *const libc::sockaddr_nl as *const libc::sockaddr, std::mem::size_of::<libc::sockaddr_nl>() as u32);
+        r as usize == dgram.len()
+    }
+}
+
+/// `BKDN F:<fill> 0:<hex> 0:<hex> ...` (non-empty datagrams of at most 900 bytes, address 0)
+pub fn bkdn(args: &[&str]) -> String {
+    if args.is_empty() {
+        return "BADARG".into();
+    }
+    let fill = match args[0].strip_prefix("F:").and_then(|h| u8::from_str_radix(h, 16).ok()) {
+        Some(f) => f,
+        None => return "BADARG".into(),
+    };
+    let items: Option<Vec<Item>> = args[1..].iter().map(|t| parse_item(t)).collect();
+    let items = match items {
+        Some(i) => i,
+        None => return "BADARG".into(),
+    };
+    let inner = match portus::ipc::netlink::Socket::<portus::ipc::Blocking>::new() {
+        Ok(s) => s,
+        Err(_) => return "NETLINK-UNAVAILABLE".into(),
+    };
+    let fd = unsafe { libc::socket(libc::AF_NETLINK, libc::SOCK_RAW, 2 /* NETLINK_USERSOCK */) };
+    if fd < 0 {
+        return "NETLINK-UNAVAILABLE".into();
+    }
+    unsafe {
+        let mut sa: libc::sockaddr_nl = std::mem::zeroed();
+        sa.nl_family = libc::AF_NETLINK as u16;
+        sa.nl_pid = 0;
+        if libc::bind(fd, &sa as *const libc::sockaddr_nl as *const libc::sockaddr, std::mem::size_of::<libc::sockaddr_nl>() as u32) != 0 {
+            libc::close(fd);
+            return "NETLINK-UNAVAILABLE".into();
+        }
+    }
+    let mut n = 0;
+    for (k, it) in items.into_iter().enumerate() {
+        match it {
+            Item::Dgram(0, d) if !d.is_empty() && d.len() <= 900 => {
+                let extra = [0u32, 40, 8, 1000, 0, 16][k % 6];
+                if !nl_send(fd, 16 + d.len() as u32 + extra, &d) {
+                    unsafe { libc::close(fd) };
+                    return "NETLINK-UNAVAILABLE".into();
+                }
+                n += 1;
+            }
+            _ => {
+                unsafe { libc::close(fd) };
+                return "BADARG".into();
+            }
+        }
+    }
+    let flag = Arc::new(AtomicBool::new(true));
+    let sock = NetW { inner, left: AtomicUsize::new(n), flag: flag.clone() };
+    let mut buf = [fill; 1024];
+    let mut out = vec![];
+    {
+        let mut b = Backend::new(sock, flag, &mut buf[..]);
+        let mut guard = 0usize;
+        while let Some((m, a)) = b.next() {
+            out.push(format!("{} {}", a, crate::wire::show_msg(&m, 0)));
+            guard += 1;
+            if guard > 3_000 {
+                out.truncate(8);
+                out.push("RUNAWAY".into());
+                break;
+            }
+        }
+    }
+    unsafe { libc::close(fd) };
+    out.push("END".to_string());
+    out.join(" | ")
+}
